@@ -61,19 +61,53 @@ func rulesFreshStamp(c *Ctx, r *Report, fields []string) {
 			if c.isFixture(fn) {
 				continue
 			}
-			for _, st := range storesToField(fn, f) {
-				if fa, ok := st.Addr.(*ssa.FieldAddr); ok {
-					if _, fresh := fa.X.(*ssa.Alloc); fresh {
-						continue
-					}
+			for _, site := range stampSitesOf(c, fn, f) {
+				if site.fresh {
+					continue
 				}
 				n++
-				ok, why := freshTimeAt(c, fn, st.Val)
-				r.Check(ok, r5, fn, "store "+lastSeg(f), st, why, "activity timestamp "+lastSeg(f)+" is set to a time other than 'now at completion' ("+why+"): a slow operation that finishes late can move it backwards, and the idle timeout then drops a torrent that was active seconds ago")
+				ok, why := freshTimeAt(c, site.in, site.store.Val)
+				r.Check(ok, r5, fn, "store "+lastSeg(f), site.at, why, "activity timestamp "+lastSeg(f)+" is set to a time other than 'now at completion' ("+why+"): a slow operation that finishes late can move it backwards, and the idle timeout then drops a torrent that was active seconds ago")
 			}
 		}
 	}
 	if n == 0 {
 		r.Unresolved(r5, "no store to an activity timestamp found")
 	}
+}
+
+// stampSite is one place where a function writes a timestamp field: a direct
+// store, or a call that passes the field's address to a helper of the package
+// which stores through that pointer parameter (`w.touch(&w.lastRead)`).
+type stampSite struct {
+	at    ssa.Instruction // the store, or the call that passes the address
+	in    *ssa.Function   // the function containing the store
+	store *ssa.Store
+	fresh bool // the object is allocated in the same function (construction)
+}
+
+func stampSitesOf(c *Ctx, fn *ssa.Function, field string) []stampSite {
+	var out []stampSite
+	for _, st := range storesToField(fn, field) {
+		fa := st.Addr.(*ssa.FieldAddr)
+		_, fresh := fa.X.(*ssa.Alloc)
+		out = append(out, stampSite{st, fn, st, fresh})
+	}
+	for _, cs := range callsIn(fn) {
+		h := cs.Instr.Common().StaticCallee()
+		if h == nil || h.Pkg != fn.Pkg || len(h.Blocks) == 0 {
+			continue
+		}
+		for i, a := range cs.Instr.Common().Args {
+			if !isFieldRef(a, field) || i >= len(h.Params) {
+				continue
+			}
+			instrsOf(h, func(in ssa.Instruction) {
+				if st, ok := in.(*ssa.Store); ok && st.Addr == ssa.Value(h.Params[i]) {
+					out = append(out, stampSite{cs.Instr, h, st, false})
+				}
+			})
+		}
+	}
+	return out
 }
